@@ -165,6 +165,7 @@ def check_circuit(ctx, cirq, rng, circuit, qids, mode):
             calls[f'DensityMatrixSimulator[split={split}]'] = (lambda dsim=dsim, ia=ia: dsim.simulate(circuit, initial_state=ia, qubit_order=order).final_density_matrix, 1e-7)
         if mode == 'classical' and name == 'int':
             calls['ClassicalStateSimulator'] = (lambda: classical_vector(cirq, circuit, order, init_arg, dims), 1e-9)
+            calls['ClassicalStateSimulator[split=True]'] = (lambda: classical_vector(cirq, circuit, order, init_arg, dims, split=True), 1e-9)
         for cname, (fn, tol) in calls.items():
             try:
                 got = fn()
@@ -235,10 +236,17 @@ def check_sweep(ctx, cirq, rng, circuit, qids):
                      'theorem_or_correspondence': 'applyOps via runArr_refines'})
 
 
-def classical_vector(cirq, circuit, order, k, dims):
+def classical_vector(cirq, circuit, order, k, dims, split=False):
     bits = cirq.big_endian_int_to_digits(k, base=dims)
-    res = cirq.ClassicalStateSimulator().simulate(circuit, initial_state=bits, qubit_order=order)
-    final_bits = [int(b) for b in res._final_simulator_state._state.basis]
+    res = cirq.ClassicalStateSimulator(split_untangled_states=split).simulate(circuit, initial_state=bits, qubit_order=order)
+    final = res._final_simulator_state
+    if split:
+        final = final.create_merged_state()
+        # the merged state lists the qubits in its own order: read the digits back in the requested order
+        pos = {q: i for i, q in enumerate(final.qubits)}
+        final_bits = [int(final._state.basis[pos[q]]) for q in order]
+    else:
+        final_bits = [int(b) for b in final._state.basis]
     idx = cirq.big_endian_digits_to_int(final_bits, base=dims)
     v = np.zeros(int(np.prod(dims)), dtype=np.complex128)
     v[idx] = 1
